@@ -680,5 +680,298 @@ theorem close_good {fx : Fixes} {t t' : Tree} {win : Nat} (hg : Good15 t) (hh : 
   refine good15_rootStep hg'' ?_ (fun x => by rw [chainRestoreAfter_wins]) (chainRestoreAfter_rootStep _ _ _ _)
   rw [wfB_wins (chainRestoreAfter_wins _ _ _ _)]; exact hwf''
 
+/-! ### `tickit_window_new` -/
+
+/-- The record `tickit_window_new` starts a window with. -/
+def newWin (par : Nat) (rect : Rect) (hid st : Bool) : Win :=
+  { parent := some par, rect := rect, isVisible := !hid, stealInput := st }
+
+/-- The store after the new window is linked into its parent. -/
+def insertedStore (t : Tree) (par : Nat) (pw wn : Win) (low : Bool) (i : Nat) : Option Win :=
+  if i = t.wins.size then some wn
+  else if i = par then
+    some { pw with children := if low then pw.children ++ [t.wins.size] else t.wins.size :: pw.children }
+  else t.wins[i]?
+
+theorem push_lookup (t : Tree) (wn : Win) (i : Nat) :
+    (t.wins.push wn)[i]? = if i = t.wins.size then some wn else t.wins[i]? := by
+  by_cases hi : i = t.wins.size
+  · subst hi; simp
+  · simp only [hi, if_false]
+    by_cases hlt : i < t.wins.size
+    · simp [Array.getElem?_push, hi]
+    · have : t.wins.size ≤ i := Nat.le_of_not_lt hlt
+      rw [Array.getElem?_eq_none (by simp; omega), Array.getElem?_eq_none this]
+
+/-- The body of `tickit_window_new` after the ROOT_PARENT walk. -/
+theorem newWindow_body {t t' : Tree} {F : Nat} {hid low st : Bool} {id : Nat} (x : Nat × Rect)
+    (hb : (do
+      let _ ← WinTree.get t x.fst
+      let t_1 ← doHierarchyChange
+          { wins := t.wins.push { parent := some x.fst, rect := x.snd, isVisible := !hid, stealInput := st },
+            root := t.root }
+          F (if low = true then Change.insertLast else Change.insertFirst) x.fst t.wins.size
+      pure (t_1, t.wins.size)) = Res.ok (t', id)) :
+    id = t.wins.size ∧ ∃ par rect pw tb, Live t par pw ∧
+      (∀ i : Nat, tb.wins[i]? = insertedStore t par pw (newWin par rect hid st) low i) ∧
+      tb.wins.size = t.wins.size + 1 ∧ tb.root = t.root ∧
+      (if (!hid) = true then expose tb F par (some rect) else pure tb) = .ok t' := by
+  simp only [bind_ok, pure_ok] at hb
+  obtain ⟨pw, hgp, t1, hdc, hfin⟩ := hb
+  simp only [Prod.mk.injEq] at hfin
+  obtain ⟨ht1, hid'⟩ := hfin
+  subst ht1
+  refine ⟨hid'.symm, x.1, x.2, pw, ?_⟩
+  have hpw := get_ok.mp hgp
+  have hplt := live_lt hpw
+  unfold doHierarchyChange at hdc
+  simp only [bind_ok] at hdc
+  obtain ⟨pw0, hg0, wn0, hgn, hdc⟩ := hdc
+  have hpw0 : pw0 = pw := by
+    have := (get_ok.mp hg0).1
+    simp only [] at this
+    rw [push_lookup] at this
+    simp only [Nat.ne_of_lt hplt, if_false] at this
+    rw [hpw.1] at this; cases this; rfl
+  subst hpw0
+  have hwn0 : wn0 = newWin x.1 x.2 hid st := by
+    have := (get_ok.mp hgn).1
+    simp only [] at this
+    rw [push_lookup] at this
+    simp at this; exact this.symm
+  subst hwn0
+  have key : ∀ (cs' : List Nat),
+      (∀ i : Nat, (WinTree.set { wins := t.wins.push (newWin x.1 x.2 hid st), root := t.root } x.1
+          { pw0 with children := cs' }).wins[i]? =
+        if i = t.wins.size then some (newWin x.1 x.2 hid st) else if i = x.1 then some { pw0 with children := cs' }
+        else t.wins[i]?) := by
+    intro cs' i
+    have hl : ({ wins := t.wins.push (newWin x.1 x.2 hid st), root := t.root } : Tree).wins[x.1]? = some pw0 := by
+      simp only []
+      rw [push_lookup]; simp only [Nat.ne_of_lt hplt, if_false]; exact hpw.1
+    rw [set_lookup hl]
+    by_cases hi : i = t.wins.size
+    · subst hi
+      have : ¬ x.1 = t.wins.size := Nat.ne_of_lt hplt
+      simp only [this, if_false]
+      rw [push_lookup]; simp
+    · simp only [hi, if_false]
+      by_cases hip : i = x.1
+      · subst hip; simp
+      · have : ¬ x.1 = i := fun h => hip h.symm
+        simp only [this, hip, if_false]
+        rw [push_lookup]; simp only [hi, if_false]
+  cases low with
+  | true =>
+    simp only [if_true, bind_ok, pure_ok] at hdc
+    obtain ⟨tb, htb, hdc⟩ := hdc
+    subst htb
+    refine ⟨WinTree.set { wins := t.wins.push (newWin x.1 x.2 hid st), root := t.root } x.1
+        { pw0 with children := pw0.children ++ [t.wins.size] }, hpw, ?_, by simp [WinTree.set], rfl, hdc⟩
+    intro i; rw [key]; unfold insertedStore; simp
+  | false =>
+    simp only [Bool.false_eq_true, if_false, bind_ok, pure_ok] at hdc
+    obtain ⟨tb, htb, hdc⟩ := hdc
+    subst htb
+    refine ⟨WinTree.set { wins := t.wins.push (newWin x.1 x.2 hid st), root := t.root } x.1
+        { pw0 with children := t.wins.size :: pw0.children }, hpw, ?_, by simp [WinTree.set], rfl, hdc⟩
+    intro i; rw [key]; unfold insertedStore; simp
+
+/-- `tickit_window_new` in pieces: the ROOT_PARENT walk, the push, the link, the expose. -/
+theorem newWindow_pieces {t t' : Tree} {F par0 : Nat} {rect0 : Rect} {rp hid low st : Bool} {id : Nat}
+    (h : newWindow t F par0 rect0 rp hid low st = .ok (t', id)) :
+    id = t.wins.size ∧ ∃ par rect pw tb, Live t par pw ∧
+      (∀ i : Nat, tb.wins[i]? = insertedStore t par pw (newWin par rect hid st) low i) ∧
+      tb.wins.size = t.wins.size + 1 ∧ tb.root = t.root ∧
+      (if (!hid) = true then expose tb F par (some rect) else pure tb) = .ok t' := by
+  unfold newWindow at h
+  cases rp with
+  | true =>
+    simp only [if_true, bind_ok] at h
+    obtain ⟨x, _, h⟩ := h
+    exact newWindow_body x (by simpa only [bind_ok] using h)
+  | false =>
+    have := newWindow_body (t := t) (t' := t') (F := F) (hid := hid) (low := low) (st := st) (id := id) (par0, rect0)
+    simp only [Bool.false_eq_true, if_false, bind_ok, pure_ok] at h this
+    obtain ⟨x, hx, h⟩ := h
+    subst hx
+    exact this h
+
+/-- The new child list contains the old one and the new window. -/
+theorem mem_inserted (cs : List Nat) (n : Nat) (low : Bool) (c : Nat) :
+    c ∈ (if low then cs ++ [n] else n :: cs) ↔ (c ∈ cs ∨ c = n) := by
+  cases low <;> simp [or_comm]
+
+/-- The store invariant after a window is created. -/
+theorem wfB_inserted {t T : Tree} {par : Nat} {pw : Win} {rect : Rect} {hid st low : Bool} (hwf : wfB t = true)
+    (hpw : Live t par pw) (hl : ∀ i : Nat, T.wins[i]? = insertedStore t par pw (newWin par rect hid st) low i) :
+    wfB T = true := by
+  have hplt := live_lt hpw
+  have hpn : par ≠ t.wins.size := Nat.ne_of_lt hplt
+  have hln : T.wins[t.wins.size]? = some (newWin par rect hid st) := by rw [hl]; unfold insertedStore; simp
+  have hlp : T.wins[par]? = some { pw with children := if low then pw.children ++ [t.wins.size] else t.wins.size :: pw.children } := by
+    rw [hl]; unfold insertedStore; simp [hpn]
+  have hlo : ∀ i : Nat, i ≠ t.wins.size → i ≠ par → T.wins[i]? = t.wins[i]? := by
+    intro i h1 h2; rw [hl]; unfold insertedStore; simp [h1, h2]
+  -- an old live window seen from the new store
+  have look : ∀ (c : Nat) (cw : Win), Live t c cw →
+      ∃ cw', T.wins[c]? = some cw' ∧ cw'.freed = false ∧ cw'.parent = cw.parent ∧ cw'.isVisible = cw.isVisible ∧
+        (∀ j, j ∈ cw.children → j ∈ cw'.children) := by
+    intro c cw hcw
+    have hcn : c ≠ t.wins.size := Nat.ne_of_lt (live_lt hcw)
+    by_cases hcp : c = par
+    · subst hcp
+      have := live_unique hcw hpw; subst this
+      exact ⟨_, hlp, hcw.2, rfl, rfl, fun j hj => (mem_inserted _ _ _ j).mpr (.inl hj)⟩
+    · exact ⟨cw, by rw [hlo c hcn hcp]; exact hcw.1, hcw.2, rfl, rfl, fun _ hj => hj⟩
+  apply wfB_of
+  · obtain ⟨r, hr0, h1, h2, h3⟩ := wf_root' hwf
+    obtain ⟨r', hr', hf', hp', _, _⟩ := look 0 r ⟨hr0, h2⟩
+    by_cases h0p : (0 : Nat) = par
+    · subst h0p
+      have := hpw.1; rw [hr0] at this; cases this
+      exact ⟨_, hlp, h1, h2, h3⟩
+    · have h0n : (0 : Nat) ≠ t.wins.size := fun h => by rw [← h] at hplt; omega
+      exact ⟨r, by rw [hlo 0 h0n h0p]; exact hr0, h1, h2, h3⟩
+  · intro j x hx hf
+    by_cases hjn : j = t.wins.size
+    · subst hjn
+      rw [hln] at hx; cases hx
+      apply winOk_intro
+      · intro q hq
+        simp only [newWin, Option.some.injEq] at hq
+        subst hq
+        exact ⟨hplt, rfl, _, hlp, hpw.2, (mem_inserted _ _ _ _).mpr (.inr rfl)⟩
+      · intro c hc; simp [newWin] at hc
+      · intro c hc; simp [newWin] at hc
+    · by_cases hjp : j = par
+      · subst hjp
+        rw [hlp] at hx; cases hx
+        apply winOk_intro
+        · intro q hq
+          obtain ⟨h1, h2, qw, hqw, hmem⟩ := wf_parent hwf hpw hq
+          obtain ⟨qw', a, b, _, _, e⟩ := look q qw hqw
+          exact ⟨h1, h2, qw', a, b, e _ hmem⟩
+        · intro c hc
+          rcases (mem_inserted _ _ _ c).mp hc with hc | hc
+          · obtain ⟨cw, hcw, hcp⟩ := wf_child hwf hpw hc
+            obtain ⟨cw', a, b, c', _, _⟩ := look c cw hcw
+            exact ⟨cw', a, b, c'.trans hcp⟩
+          · subst hc; exact ⟨_, hln, rfl, rfl⟩
+        · intro c hc
+          obtain ⟨cw, hcw, hcp, hcv⟩ := wf_focused hwf hpw hc
+          obtain ⟨cw', a, b, c', d, _⟩ := look c cw hcw
+          exact ⟨cw', a, b, c'.trans hcp, d.trans hcv⟩
+      · rw [hlo j hjn hjp] at hx
+        have hxl : Live t j x := ⟨hx, hf⟩
+        apply winOk_intro
+        · intro q hq
+          obtain ⟨h1, h2, qw, hqw, hmem⟩ := wf_parent hwf hxl hq
+          obtain ⟨qw', a, b, _, _, e⟩ := look q qw hqw
+          exact ⟨h1, h2, qw', a, b, e _ hmem⟩
+        · intro c hc
+          obtain ⟨cw, hcw, hcp⟩ := wf_child hwf hxl hc
+          obtain ⟨cw', a, b, c', _, _⟩ := look c cw hcw
+          exact ⟨cw', a, b, c'.trans hcp⟩
+        · intro c hc
+          obtain ⟨cw, hcw, hcp, hcv⟩ := wf_focused hwf hxl hc
+          obtain ⟨cw', a, b, c', d, _⟩ := look c cw hcw
+          exact ⟨cw', a, b, c'.trans hcp, d.trans hcv⟩
+
+/-- The structural invariants after a window is created. -/
+theorem struct_inserted {t T : Tree} {par : Nat} {pw : Win} {rect : Rect} {hid st low : Bool}
+    (hwfp : WFp t) (hrw : RootWin t) (hor : OnlyRoot t) (hnd : ChildrenNodup t) (hns : NoSelfParent t)
+    (hpos : RootsPositive t) (hpw : Live t par pw)
+    (hl : ∀ i : Nat, T.wins[i]? = insertedStore t par pw (newWin par rect hid st) low i) :
+    WFp T ∧ RootWin T ∧ OnlyRoot T ∧ ChildrenNodup T ∧ NoSelfParent T ∧ RootsPositive T := by
+  have hplt := live_lt hpw
+  have hpn : par ≠ t.wins.size := Nat.ne_of_lt hplt
+  have hln : T.wins[t.wins.size]? = some (newWin par rect hid st) := by rw [hl]; unfold insertedStore; simp
+  have hlp : T.wins[par]? = some { pw with children := if low then pw.children ++ [t.wins.size] else t.wins.size :: pw.children } := by
+    rw [hl]; unfold insertedStore; simp [hpn]
+  have hlo : ∀ i : Nat, i ≠ t.wins.size → i ≠ par → T.wins[i]? = t.wins[i]? := by
+    intro i h1 h2; rw [hl]; unfold insertedStore; simp [h1, h2]
+  have hlt_of : ∀ (c : Nat) (cw : Win), t.wins[c]? = some cw → c ≠ t.wins.size := fun c cw h =>
+    Nat.ne_of_lt (Array.getElem?_eq_some_iff.mp h).1
+  have hnotin : t.wins.size ∉ pw.children := by
+    intro hmem
+    obtain ⟨cw, hcw, _, _⟩ := hwfp.child par pw hpw.1 _ hmem
+    exact hlt_of _ cw hcw rfl
+  -- every window of `T` against `t`
+  have hrel : ∀ (x : Nat) (wb : Win), T.wins[x]? = some wb →
+      (x = t.wins.size ∧ wb = newWin par rect hid st) ∨
+      (x ≠ t.wins.size ∧ ∃ w0, t.wins[x]? = some w0 ∧ wb.isRoot = w0.isRoot ∧ wb.rect = w0.rect ∧ wb.freed = w0.freed ∧
+        wb.parent = w0.parent ∧ (x ≠ par → wb.children = w0.children) ∧
+        (x = par → wb.children = if low then w0.children ++ [t.wins.size] else t.wins.size :: w0.children)) := by
+    intro x wb hwb
+    by_cases hxn : x = t.wins.size
+    · subst hxn; rw [hln] at hwb; cases hwb; exact .inl ⟨rfl, rfl⟩
+    · right
+      refine ⟨hxn, ?_⟩
+      by_cases hxp : x = par
+      · subst hxp
+        rw [hlp] at hwb; cases hwb
+        exact ⟨pw, hpw.1, rfl, rfl, rfl, rfl, fun h => absurd rfl h, fun _ => rfl⟩
+      · rw [hlo x hxn hxp] at hwb
+        exact ⟨wb, hwb, rfl, rfl, rfl, rfl, fun _ => rfl, fun h => absurd h hxp⟩
+  have hfwd : ∀ (x : Nat) (w0 : Win), t.wins[x]? = some w0 → ∃ wb, T.wins[x]? = some wb ∧ wb.isRoot = w0.isRoot ∧
+      wb.parent = w0.parent ∧ wb.rect = w0.rect ∧ wb.freed = w0.freed := by
+    intro x w0 hw0
+    have hxn := hlt_of x w0 hw0
+    by_cases hxp : x = par
+    · subst hxp
+      rw [hpw.1] at hw0; cases hw0
+      exact ⟨_, hlp, rfl, rfl, rfl, rfl⟩
+    · exact ⟨w0, by rw [hlo x hxn hxp]; exact hw0, rfl, rfl, rfl, rfl⟩
+  refine ⟨⟨?_⟩, ?_, ?_, ?_, ?_, ?_⟩
+  · intro cur wb hwb ch hch
+    rcases hrel cur wb hwb with ⟨_, rfl⟩ | ⟨hcn, w0, hw0, _, _, _, _, hc1, hc2⟩
+    · simp [newWin] at hch
+    · by_cases hcp : cur = par
+      · subst hcp
+        rw [hpw.1] at hw0; cases hw0
+        rw [hc2 rfl] at hch
+        rcases (mem_inserted _ _ _ ch).mp hch with hch | hch
+        · obtain ⟨cw, hcw, hcpar, hcr⟩ := hwfp.child cur _ hpw.1 ch hch
+          obtain ⟨cwb, a, b, c, _, _⟩ := hfwd ch cw hcw
+          exact ⟨cwb, a, by rw [c]; exact hcpar, by rw [b]; exact hcr⟩
+        · subst hch; exact ⟨_, hln, rfl, rfl⟩
+      · rw [hc1 hcp] at hch
+        obtain ⟨cw, hcw, hcpar, hcr⟩ := hwfp.child cur w0 hw0 ch hch
+        obtain ⟨cwb, a, b, c, _, _⟩ := hfwd ch cw hcw
+        exact ⟨cwb, a, by rw [c]; exact hcpar, by rw [b]; exact hcr⟩
+  · obtain ⟨r, hr, hf, hroot, hpar, htop, hleft⟩ := hrw.ex
+    obtain ⟨rb, a, b, c, d, e⟩ := hfwd 0 r hr
+    exact ⟨⟨rb, a, by rw [e]; exact hf, by rw [b]; exact hroot, by rw [c]; exact hpar, by rw [d]; exact htop,
+      by rw [d]; exact hleft⟩⟩
+  · intro x wb hwb hr
+    rcases hrel x wb hwb with ⟨_, rfl⟩ | ⟨_, w0, hw0, hr1, _⟩
+    · simp [newWin] at hr
+    · exact hor x w0 hw0 (by rw [← hr1]; exact hr)
+  · intro cur wb hwb
+    rcases hrel cur wb hwb with ⟨_, rfl⟩ | ⟨hcn, w0, hw0, _, _, _, _, hc1, hc2⟩
+    · simp [newWin]
+    · by_cases hcp : cur = par
+      · subst hcp
+        rw [hpw.1] at hw0; cases hw0
+        rw [hc2 rfl]
+        have hnd0 := hnd cur _ hpw.1
+        cases low with
+        | true =>
+          simp only [if_true]
+          exact List.nodup_append.mpr ⟨hnd0, by simp, fun a ha b hb => by simp at hb; subst hb; exact fun h => hnotin (h ▸ ha)⟩
+        | false =>
+          simp only [Bool.false_eq_true, if_false]
+          exact List.nodup_cons.mpr ⟨hnotin, hnd0⟩
+      · rw [hc1 hcp]; exact hnd cur w0 hw0
+  · intro x wb hwb
+    rcases hrel x wb hwb with ⟨rfl, rfl⟩ | ⟨_, w0, hw0, _, _, _, hp1, _⟩
+    · simp only [newWin]; intro h; cases h; exact hpn rfl
+    · rw [hp1]; exact hns x w0 hw0
+  · intro x wb hwb hr
+    rcases hrel x wb hwb with ⟨_, rfl⟩ | ⟨_, w0, hw0, hr1, hr2, _⟩
+    · simp [newWin] at hr
+    · rw [hr2]; exact hpos x w0 hw0 (by rw [← hr1]; exact hr)
+
 end WinFocus
 end Tickit
